@@ -718,13 +718,6 @@ Definition run_gen (fn : sexp) (args : list sexp) : option sexp :=
       Some (enc_cli_decision (cli_gen a ex))
     | _ => None
     end
-  else if is_sym "gen_hoist" fn then
-    match args with
-    | [body] =>
-      let?? body := dec_list dec_top body in
-      Some (SList [enc_list enc_top (hoist body); enc_str (unparse_module (hoist body))])
-    | _ => None
-    end
   else if is_sym "gen_format_name" fn then
     match args with
     | [tpl; name] =>
